@@ -59,11 +59,11 @@ CLAIMED = {
         "note": COMMON_NOTE + "The bound is what first fit guarantees, not the tightest plateau. On reopen everything listed becomes free (checked).",
     },
     "C16": {
-        "category": "other",
-        "technique": "configuration-free Lean specification + Lean theorems on growth arithmetic and generated parameters + differential replay of the same histories under the configuration product",
-        "text": "The specification has no configuration parameter and the Layer Q/T theorems hold for arbitrary trees, so behaviour is a function of the history only; proved: regenerated tunables satisfy Params.Valid, the computed file extension always covers the required size in whole steps, growth precedes writes in the regenerated commit order. Decided by correspondence: the same histories are replayed under page sizes {1024,1032,2048,3000,4096,5000,16384,65536,1MiB} x page counts {4,32,1000} x strict x populate (quick: 14 combinations covering every value; thorough: full product) and compared with the single specification run; strict mode must never reject; growth runs cross several 8 MiB extension steps including a single commit that needs more than one step. Layer C: proved that the contents a commit leaves in a bucket are the same under any two page sizes (commit_contents_independent_of_pagesize) and that commit keeps the tree invariant at every page size with the regenerated tunables. Category other because the serialisation and growth paths are tied by correspondence, not proved.",
+        "category": "proof",
+        "technique": "Lean 4 theorems: behaviour is a function of the logical contents only (two databases with the same contents in differently shaped trees answer every call alike, keep the same contents after any operation sequence and after commits under any page size); strict mode's check accepts every file the independent checker accepts; growth arithmetic; regenerated tunables valid — tied by differential replay of the same histories under the configuration product",
+        "text": "Proved (Jamm/Props/C16.lean): same_contents_same_answers / same_contents_preserved / same_contents_after_commits — over the API-layer model (one B+tree per bucket), two databases whose trees differ in shape (as they do under different page sizes or initial page counts) but hold the same logical contents return the same value or error kind for every call and hold the same contents after any sequence of operations and after commits, as long as each commit keeps every bucket's contents, which commit_contents_independent_of_pagesize / commit_invariant_any_pagesize prove of the commit model for every page size with the regenerated tunables; strict_mode_never_rejects_a_checked_file — the database's own check (model implCheck, tied to the real DB::check) accepts every file the independent checker accepts, and the run establishes the latter for every commit; growth_covers / growth_whole_steps / grow_before_writes — the computed extension always covers the required size in whole steps and precedes the page writes; params_valid, accepted_pagesizes_aligned on the regenerated constants. mmap_populate and direct_writes only select OS flags. Tie: the same histories are replayed under page sizes {1024,1032,2048,3000,4096,5000,16384,65536,1MiB} x page counts {4,32,1000} x strict x populate (quick: 14 combinations covering every value; thorough: full product) and compared with the single specification run; strict mode must never reject; growth runs cross several 8 MiB extension steps including a single commit that needs more than one step; odd page sizes (refused since the repair of D14) are probed in their own processes.",
         "design_ref": "DESIGN.md §5 C16",
-        "note": COMMON_NOTE + "Page sizes that are not a multiple of 8 are an open known finding (D14: misaligned reference, debug abort) and are probed separately; mmap_populate/direct_writes only change OS flags.",
+        "note": COMMON_NOTE + "The layers are composed by the ties, not by one end-to-end theorem (see C01). Page sizes that are not a multiple of 8 were defect D14 (repaired: refused by the builder).",
     },
     "C12": {
         "category": "proof",
